@@ -51,10 +51,11 @@ TEXT = {
             "bounded-exhaustive differential exploration (rank_prefetch vs rank; feature on vs off) on the real code"),
     "C10": (E1[0], "Every unchecked method is compared with its checked twin on every precondition-satisfying argument of the bounded "
             "input zoo, in the optimized build and in the build with debug assertions and overflow checks; a checked method that answers None "
-            "where the precondition holds while the unchecked one returns a value is a disagreement.", "§4 C10",
+            "or panics where the precondition holds while the unchecked one returns a value is a disagreement.", "§4 C10",
             "bounded-exhaustive differential exploration (unchecked vs checked) in two build profiles"),
     "C11": (E1[0], "Every value of the bounded zoo makes the bincode round trip; equality, byte identity and the digest of the complete "
-            "query sweep are compared - for the value before it has answered any query and again after it has answered all of them.", "§4 C11",
+            "query sweep are compared - for the value before it has answered any query and again after it has answered all of them, through "
+            "every entry point of bincode (slice, reader, one-byte reader, writer, size).", "§4 C11",
             "bounded-exhaustive round-trip exploration on the real code (differential oracle)"),
     "C19": (E1[0], "All construction paths, clones and clone_from copies, all ordered pairs of distinct short inputs and all element widths are compared "
             "differentially over the bounded zoo.", "§4 C19",
